@@ -10,6 +10,7 @@ package main
 import (
 	"encoding/json"
 	"fmt"
+	"math/big"
 	"math/rand"
 	"os"
 	"time"
@@ -18,6 +19,7 @@ import (
 	"github.com/idena-network/idena-go/blockchain/types"
 	"github.com/idena-network/idena-go/blockchain/validation"
 	"github.com/idena-network/idena-go/common"
+	"github.com/idena-network/idena-go/config"
 
 	"verifharness/internal/chainfx"
 	"verifharness/internal/hx"
@@ -27,6 +29,7 @@ type c06case struct {
 	Seed   int64 `json:"seed"`
 	Blocks int   `json:"blocks"`
 	Reorgs bool  `json:"reorgs"`
+	Failed bool  `json:"failed_validations"` // nobody takes part in the ceremonies: every validation fails
 }
 
 type c06tx struct {
@@ -38,7 +41,15 @@ type c06tx struct {
 func c06run(c *hx.Ctx, cs c06case) error {
 	r := rand.New(rand.NewSource(cs.Seed))
 	w := chainfx.NewWorld(cs.Seed, 8, 0, time.Date(2030, 1, 1, 0, 0, 0, 0, time.UTC))
-	h, err := chainfx.Bootstrap(w, chainfx.HistoryOpts{Blocks: cs.Blocks, ShortEpochs: true, TxPerBlock: 4}, r, true)
+	// three key holders that own nothing at genesis play the dust accounts: funded, emptied below the dust limit (their
+	// account, nonce included, is removed at the next dust clearing), funded again; snapshot blocks every 12 blocks
+	w.AddFresh(3)
+	w.Opts.Tweak = func(cfg *config.Config) { cfg.Consensus.SnapshotRange = 12 }
+	ho := chainfx.HistoryOpts{Blocks: cs.Blocks, ShortEpochs: true, TxPerBlock: 4}
+	if cs.Failed {
+		ho.Participate = -1
+	}
+	h, err := chainfx.Bootstrap(w, ho, r, true)
 	if err != nil {
 		return err
 	}
@@ -104,7 +115,54 @@ func c06run(c *hx.Ctx, cs c06case) error {
 		}
 		return "rej"
 	}
+	firstFresh := len(w.Keys) - 3
+	dustPhase := make([]int, 3)   // 0 to be funded, 1 funded: empty it, 2 emptied: wait for a clearing, 3 fund again, 4 done
+	dustWait := make([]int, 3)
+	var dustTxs []c06tx
 	for b := 1; b <= cs.Blocks; b++ {
+		if n.App.State.ValidationPeriod() == 0 {
+			for j := 0; j < 3; j++ {
+				fi := firstFresh + j
+				bal := n.App.State.GetBalance(w.Addrs[fi])
+				to := w.Addrs[fi]
+				switch dustPhase[j] {
+				case 0:
+					if b > 3+4*j && len(n.Pool.GetPendingByAddress(w.Addrs[0])) == 0 {
+						if _, err := h.S.Send(n, 0, &types.Transaction{Type: types.SendTx, To: &to, Amount: chainfx.Dna(40)}); err == nil {
+							dustPhase[j] = 1
+						}
+					}
+				case 1:
+					if bal.Sign() > 0 && len(n.Pool.GetPendingByAddress(w.Addrs[fi])) == 0 {
+						// everything but a sliver leaves the account: amount = balance - maxFee, maxFee = exact cost + sliver
+						god := w.Addrs[0]
+						probe := h.S.Sign(n, fi, &types.Transaction{Type: types.SendTx, To: &god, Amount: bal, MaxFee: bal})
+						cost := new(big.Int).Mul(big.NewInt(int64(fee.CalculateGas(probe))), n.App.State.FeePerGas())
+						maxFee := new(big.Int).Add(cost, big.NewInt(1000))
+						amt := new(big.Int).Sub(bal, maxFee)
+						if amt.Sign() > 0 {
+							if _, err := h.S.Send(n, fi, &types.Transaction{Type: types.SendTx, To: &god, Amount: amt, MaxFee: maxFee}); err == nil {
+								dustPhase[j] = 2
+								c.Hit("dust:emptying-tx-sent")
+							}
+						}
+					}
+				case 2:
+					if len(n.Pool.GetPendingByAddress(w.Addrs[fi])) == 0 && n.App.State.GetNonce(w.Addrs[fi]) == 0 && n.App.State.GetEpoch(w.Addrs[fi]) == 0 && bal.Sign() == 0 && dustWait[j] > 0 {
+						dustPhase[j] = 3 // the account is gone (cleared)
+						c.Hit("dust:account-cleared")
+					}
+					dustWait[j]++
+				case 3:
+					if len(n.Pool.GetPendingByAddress(w.Addrs[0])) == 0 {
+						if _, err := h.S.Send(n, 0, &types.Transaction{Type: types.SendTx, To: &to, Amount: chainfx.Dna(60)}); err == nil {
+							dustPhase[j] = 4
+							c.Hit("dust:funded-again")
+						}
+					}
+				}
+			}
+		}
 		blk, err := h.Step(b)
 		if err == chainfx.ErrNotEligible {
 			c.Hit("history-ended:proposer-not-eligible")
@@ -123,6 +181,9 @@ func c06run(c *hx.Ctx, cs c06case) error {
 			}
 			seenHash[tx.Hash()] = len(blockTxCount)
 			canon = append(canon, c06tx{tx, si, len(blockTxCount)})
+			if si >= firstFresh {
+				dustTxs = append(dustTxs, c06tx{tx, si, len(blockTxCount)})
+			}
 		}
 		if blk.Header.Flags().HasFlag(types.ValidationFinished) {
 			c.Line("epoch", "ok")
@@ -160,6 +221,22 @@ func c06run(c *hx.Ctx, cs c06case) error {
 					fail("C06:replay-accepted", fmt.Sprintf("included tx %s (sender %d epoch %d nonce %d type %d) accepted again at height %d: validate InBlock/Mempool/Inbound=%v apply=%v processTxs=%v",
 						t.tx.Hash().Hex(), t.sender, t.tx.Epoch, t.tx.AccountNonce, t.tx.Type, n.Chain.Head.Height(), modes, app, proc))
 				}
+			}
+		}
+		// every transaction a dust account ever sent, re-offered after every block (its nonce record may have been cleared and
+		// the account funded again: the epoch number is the only guard left)
+		for _, t := range dustTxs {
+			if _, onChain := seenHash[t.tx.Hash()]; !onChain {
+				continue
+			}
+			val, app, proc, modes := verdicts(t.tx)
+			c.Hit("dust:replay-attempt")
+			if n.App.State.GetBalance(w.Addrs[t.sender]).Cmp(chainfx.Dna(50)) > 0 {
+				c.Hit("dust:replay-attempt-on-refunded-account")
+			}
+			if modes[0] || modes[1] || modes[2] || val || app || proc {
+				fail("C06:replay-accepted:dust-account", fmt.Sprintf("tx %s of dust account %d (epoch %d nonce %d) accepted again at height %d (state epoch %d, account nonce %d balance %s): validate=%v apply=%v processTxs=%v",
+					t.tx.Hash().Hex(), t.sender, t.tx.Epoch, t.tx.AccountNonce, n.Chain.Head.Height(), n.App.State.Epoch(), n.App.State.GetNonce(w.Addrs[t.sender]), n.App.State.GetBalance(w.Addrs[t.sender]), modes, app, proc))
 			}
 		}
 		// nonce/epoch probes with fresh funded zero-amount sends (correspondence of the rule itself)
@@ -243,7 +320,7 @@ func init() {
 		c.Rep.Rule = "real chain histories (8 users + god, all ordinary tx kinds, validation ceremonies with shrunk timeline => several epochs, short reorgs in half of them); after every block: included (sender, epoch, nonce) triples, effective nonces, replays of sampled included txs in 3 validation modes + applyTxOnState + processTxs, fresh nonce/epoch probes around the current nonce; distinct = histories (distinct seeds); non-trivial = the history included at least 20 transactions"
 		nh := c.Scale(10, 200)
 		for i := 0; i < nh; i++ {
-			cs := c06case{Seed: c.Seed*1000 + int64(i), Blocks: 130, Reorgs: i%2 == 1}
+			cs := c06case{Seed: c.Seed*1000 + int64(i), Blocks: 130, Reorgs: i%2 == 1, Failed: i%5 == 3}
 			before := c.Lines
 			if err := c06run(c, cs); err != nil {
 				return err
